@@ -385,3 +385,96 @@ Proof.
   rewrite (fos_sp W lvs lvs' Hl fm (solve W lvs fm k) (solve W lvs' fm k) IH lv lv' Hv st ws fd). reflexivity.
 Qed.
 Print Assumptions solve_sp.
+
+(* ------------------------------------------------------------------ *)
+(* a top-level line, a phase *)
+Lemma gtoks_of_sp lvs lvs' : Forall2 view_rel lvs lvs' -> forall k, gtoks_of lvs k = gtoks_of lvs' k.
+Proof.
+  intros Hl k. unfold gtoks_of. pose proof (nth_views lvs lvs' Hl k) as Hk.
+  destruct (nth_error lvs k) as [a|], (nth_error lvs' k) as [b|]; try contradiction; [|reflexivity]. destruct Hk as (recs' & -> & _). reflexivity.
+Qed.
+
+Lemma format_top_sp W lvs lvs' fm depth st lv lv' : Forall2 view_rel lvs lvs' -> view_rel lv lv' ->
+  format_top W lvs fm depth st lv = format_top W lvs' fm depth st lv'.
+Proof.
+  intros Hl Hv. unfold format_top. rewrite <- (solve_sp W lvs lvs' fm Hl depth st lv lv' _ _ Hv).
+  destruct Hv as (recs' & -> & _). cbn [lv_type lv_gtoks lv_level].
+  destruct (bid _); [reflexivity|]. destruct (solve W lvs fm depth st lv _ _) as [st1 r]. destruct r as [s|]; [|reflexivity].
+  rewrite (recon_lvs_eq lvs lvs' (gtoks_of_sp lvs lvs' Hl)). reflexivity.
+Qed.
+
+Theorem wrap_phase_views_sp W lvs lvs' fm depth (which : lview -> bool) : Forall2 view_rel lvs lvs' ->
+  (forall lv lv', view_rel lv lv' -> which lv = which lv') ->
+  forall st, fold_left (fun st lv => if which lv then format_top W lvs fm depth st lv else st) lvs st
+           = fold_left (fun st lv => if which lv then format_top W lvs' fm depth st lv else st) lvs' st.
+Proof.
+  intros Hl Hw. assert (Hgen : forall l l', Forall2 view_rel l l' -> forall st,
+            fold_left (fun st lv => if which lv then format_top W lvs fm depth st lv else st) l st
+            = fold_left (fun st lv => if which lv then format_top W lvs' fm depth st lv else st) l' st).
+  { induction 1 as [|a b l l' Hab Hr IH]; intros st; [reflexivity|]. cbn [fold_left]. rewrite <- (Hw a b Hab), <- (format_top_sp W lvs lvs' fm depth st a b Hl Hab). apply IH. }
+  exact (Hgen lvs lvs' Hl).
+Qed.
+
+(* ------------------------------------------------------------------ *)
+(* the views of two token tables *)
+Definition info_rel (a b : tokinfo) : Prop := ti_ty a = ti_ty b /\ ti_len a = ti_len b /\ ti_ml a = ti_ml b.
+Definition sp_at (infos : list tokinfo) (g : N) : N := match nth_error infos (N.to_nat g) with Some i => ti_sp i | None => 0 end.
+
+(* every record of the views about a token whose spaces differ has the invariant MustBreak (a token of two overlapping lines: in both) *)
+Definition differing_are_must_break (infos infos' : list tokinfo) (lines : list lline) : Prop :=
+  forall lv r, In lv (mk_lviews infos lines) -> In r (lv_recs lv) -> sp_at infos (tr_gidx r) <> sp_at infos' (tr_gidx r) -> tr_inv r = MB.
+
+Lemma ti_get_rel infos infos' : Forall2 info_rel infos infos' -> forall g,
+  opt_rel info_rel (ti_get (ti_build infos 0 PLeaf) g) (ti_get (ti_build infos' 0 PLeaf) g).
+Proof.
+  intros H g. rewrite !ti_get_infos. revert H. generalize (N.to_nat g). intros n H. revert n.
+  induction H as [|a b l l' Hab Hl IH]; intros n; destruct n; cbn [nth_error opt_rel]; [exact I|exact I|exact Hab|apply IH].
+Qed.
+
+Lemma line_types_sp infos infos' : Forall2 info_rel infos infos' -> forall toks,
+  line_types (ti_build infos 0 PLeaf) toks = line_types (ti_build infos' 0 PLeaf) toks.
+Proof.
+  intros H. induction toks as [|g r IH]; [reflexivity|]. cbn [line_types]. pose proof (ti_get_rel infos infos' H g) as Hg.
+  destruct (ti_get (ti_build infos 0 PLeaf) g) as [a|], (ti_get (ti_build infos' 0 PLeaf) g) as [b|]; try contradiction; [|reflexivity].
+  destruct Hg as (E & _). rewrite IH. f_equal. exact E.
+Qed.
+
+Lemma mk_recs_sp infos infos' kids li : Forall2 info_rel infos infos' -> forall toks prevtok win stacks,
+  (forall r, In r (mk_recs (ti_build infos 0 PLeaf) toks prevtok win stacks kids li) -> sp_at infos (tr_gidx r) <> sp_at infos' (tr_gidx r) -> tr_inv r = MB) ->
+  Forall2 rec_rel (mk_recs (ti_build infos 0 PLeaf) toks prevtok win stacks kids li) (mk_recs (ti_build infos' 0 PLeaf) toks prevtok win stacks kids li).
+Proof.
+  intros H. induction toks as [|g rest IH]; intros prevtok win stacks Hmb; [constructor|]. cbn [mk_recs] in *.
+  pose proof (ti_get_rel infos infos' H g) as Hg. pose proof (ti_get_rel infos infos' H (g - 1)) as Hg1. pose proof (fun pt => ti_get_rel infos infos' H pt) as Hpt.
+  assert (Esp : forall x, match ti_get (ti_build x 0 PLeaf) g with Some i => ti_sp i | None => 0 end = sp_at x g) by (intros x; unfold sp_at; rewrite ti_get_infos; reflexivity).
+  assert (Ety : option_map ti_ty (ti_get (ti_build infos' 0 PLeaf) g) = option_map ti_ty (ti_get (ti_build infos 0 PLeaf) g)).
+  { destruct (ti_get (ti_build infos 0 PLeaf) g) as [a|], (ti_get (ti_build infos' 0 PLeaf) g) as [b|]; try contradiction; [|reflexivity]. destruct Hg as (X1 & X2 & X3). cbn [option_map]. congruence. }
+  assert (Ety1 : option_map ti_ty (ti_get (ti_build infos' 0 PLeaf) (g - 1)) = option_map ti_ty (ti_get (ti_build infos 0 PLeaf) (g - 1))).
+  { destruct (ti_get (ti_build infos 0 PLeaf) (g - 1)) as [a|], (ti_get (ti_build infos' 0 PLeaf) (g - 1)) as [b|]; try contradiction; [|reflexivity]. destruct Hg1 as (X1 & X2 & X3). cbn [option_map]. congruence. }
+  assert (Elen : match ti_get (ti_build infos' 0 PLeaf) g with Some i => ti_len i | None => 0 end = match ti_get (ti_build infos 0 PLeaf) g with Some i => ti_len i | None => 0 end).
+  { destruct (ti_get (ti_build infos 0 PLeaf) g) as [a|], (ti_get (ti_build infos' 0 PLeaf) g) as [b|]; try contradiction; [|reflexivity]. destruct Hg as (X1 & X2 & X3). congruence. }
+  assert (Eml : match ti_get (ti_build infos' 0 PLeaf) g with Some i => ti_ml i | None => None end = match ti_get (ti_build infos 0 PLeaf) g with Some i => ti_ml i | None => None end).
+  { destruct (ti_get (ti_build infos 0 PLeaf) g) as [a|], (ti_get (ti_build infos' 0 PLeaf) g) as [b|]; try contradiction; [|reflexivity]. destruct Hg as (X1 & X2 & X3). congruence. }
+  assert (Ek : match assoc_find (li, g) kids with
+               | Some (pt, ls, dc) => Some (mkLCh pt (option_map ti_ty (ti_get (ti_build infos' 0 PLeaf) pt)) (rev ls) dc)
+               | None => None
+               end = match assoc_find (li, g) kids with
+                     | Some (pt, ls, dc) => Some (mkLCh pt (option_map ti_ty (ti_get (ti_build infos 0 PLeaf) pt)) (rev ls) dc)
+                     | None => None
+                     end).
+  { destruct (assoc_find (li, g) kids) as [[[pt ls] dc]|]; [|reflexivity]. specialize (Hpt pt).
+    destruct (ti_get (ti_build infos 0 PLeaf) pt) as [a|], (ti_get (ti_build infos' 0 PLeaf) pt) as [b|]; try contradiction; [|reflexivity]. destruct Hpt as (X1 & X2 & X3). cbn [option_map]. congruence. }
+  rewrite Ety, Ety1, Elen, Eml, Ek, !Esp in *. constructor.
+  - exists (sp_at infos' g). split; [reflexivity|]. cbn [tr_sp tr_inv]. destruct (N.eq_dec (sp_at infos' g) (sp_at infos g)) as [e|ne]; [left; exact e|right].
+    apply (Hmb _ (or_introl eq_refl)). cbn [tr_gidx]. intros e. apply ne. symmetry. exact e.
+  - apply IH. intros r Hin. apply Hmb. right. exact Hin.
+Qed.
+
+Theorem mk_lviews_sp infos infos' lines : Forall2 info_rel infos infos' -> differing_are_must_break infos infos' lines ->
+  Forall2 view_rel (mk_lviews infos lines) (mk_lviews infos' lines).
+Proof.
+  unfold differing_are_must_break, mk_lviews. intros H. generalize (get_line_children (map iline_of lines)). intros kids. generalize (map iline_of lines). intros ils. generalize 0%nat.
+  induction ils as [|l r IH]; intros i Hmb; [constructor|]. cbn [mk_lviews_from] in *. constructor.
+  - unfold mk_lview. rewrite <- (line_types_sp infos infos' H). eexists. split; [reflexivity|]. cbn [lv_recs].
+    apply mk_recs_sp; [exact H|]. intros r0 Hin. apply (Hmb _ r0 (or_introl eq_refl)). exact Hin.
+  - apply IH. intros lv r0 Hin. apply Hmb. right. exact Hin.
+Qed.
